@@ -467,6 +467,33 @@ def _fld(fl, R, rng, budget, seed=0, sizes=None, **kw):
             if text is not _CRASHED:
                 _judge_table(R, text, e, (sep, headers, inputs, outputs), d, exp, call, "fld-reader" + (":empty" if not exp else ""), reader=True)
 
+    # (4) an engine that was exported (or processed) before and then EDITED - a term object of a variable replaced by another of the same name: the dataset tabulates the
+    #     engine as it is when it is exported (the exporter restarts the engine, which reloads the rules; the reference is a restarted deep copy as everywhere above)
+    fl.settings.decimals = 3
+    for n, kind in ((1, "mamdani"), (2, "ts"), (2, "mamdani")):
+        R.cases += 1; R.distinct += 1
+        e = fl.FllImporter().from_string(fld_fll(n, kind))
+        exporter = fl.FldExporter()
+        src = f"e = fl.FllImporter().from_string(fld_fll({n}, {kind!r})); x = fl.FldExporter(); x.to_string_from_scope(e, 4, fl.FldExporter.ScopeOfValues.EachVariable); "
+        if R.lib("FldExporter.to_string_from_scope", src, exporter.to_string_from_scope, e, 4, S.EachVariable) is _CRASHED:
+            continue
+        ov, iv = e.output_variables[0], e.input_variables[0]
+        if kind == "mamdani":
+            ov.terms[0] = fl.Triangle("a", 2.5, 3.5, 4.0)
+            edit = "e.output_variables[0].terms[0] = fl.Triangle('a', 2.5, 3.5, 4.0); "
+        else:
+            ov.terms[0] = fl.Constant("a", -7.25)
+            edit = "e.output_variables[0].terms[0] = fl.Constant('a', -7.25); "
+        lo, hi = iv.minimum, iv.maximum
+        iv.terms[1] = fl.Triangle("hi", lo, lo + 0.25 * (hi - lo), hi)
+        edit += f"e.input_variables[0].terms[1] = fl.Triangle('hi', {lo}, {lo + 0.25 * (hi - lo)}, {hi}); "
+        ranges = [(v_.minimum, v_.maximum) for v_ in e.input_variables]
+        call = src + edit + "x.to_string_from_scope(e, 5, fl.FldExporter.ScopeOfValues.EachVariable)"
+        text = R.lib("FldExporter.to_string_from_scope", call, exporter.to_string_from_scope, e, 5, S.EachVariable)
+        if text is not _CRASHED:
+            _judge_table(R, text, e, (" ", True, True, True), 3, _grid(ranges, [5] * n), call, f"fld-rowcount:n={n}", v=5, alt_in=_grid(ranges, [5] * n, alt=True))
+    fl.settings.decimals = 6
+
 
 def _via_writer(exporter, e, v, scope):
     import io
@@ -712,6 +739,18 @@ def _integral(fl, R, rng, budget, seed=0, **kw):
                     if not (_same(zs[i], want) or abs(zs[i] - want) <= tol or (amb and min(amb) - tol <= zs[i] <= max(amb) + tol)):
                         R.fail("integral-batch-value", f"set {i}: {want!r} (per-set results {[p[0][D] for p in per]})", zs, call)
                         break
+            # the same Activated objects after their degrees were assigned anew (what a rule does when the next input arrives): the set is the one of the new degrees
+            for a_, d_ in zip(aggb.terms, degs):
+                a_.degree = d_
+            for D in _INTEGRAL:
+                if D not in got:
+                    continue
+                call = f"{callb}; fl.{D}({rb}).defuzzify(agg, {lo!r}, {hi!r}); [setattr(a, 'degree', d) for a, d in zip(agg.terms, {degs})]; fl.{D}({r}).defuzzify(agg, {lo!r}, {hi!r})"
+                z = R.lib(f"{D}.defuzzify(degrees reassigned)", call, getattr(fl, D)(r).defuzzify, aggb, lo, hi)
+                if z is _CRASHED:
+                    continue
+                if np.size(z) != 1 or not (_same(_f(z), got[D]) or abs(_f(z) - got[D]) <= tol):
+                    R.fail("integral-reassigned-degree", f"{got[D]!r} (the value of a set built with these degrees)", z, call)
 
 
 replay_integral = _entry(_integral)
@@ -864,6 +903,11 @@ def _batch(fl, R, rng, budget, seed=0, engines=None, **kw):
                         if isinstance(x_, np.floating):
                             setattr(t, k_, float(x_))
             src = src + "  # term parameters converted to Python floats: [setattr(t, k, float(x)) for v in e.variables for t in v.terms for k, x in list(vars(t).items()) if isinstance(x, np.floating)]"
+        rng_d = random.Random(f"{seed}:{key}:disabled-input")
+        if n >= 2 and rng_d.random() < 0.3:
+            # a disabled input variable (not the last one): its propositions are 0, and the columns of Engine.input_values still belong to the variables by position
+            base.input_variables[0].enabled = False
+            src = src + "; e.input_variables[0].enabled = False"
         specials = []
         for iv in base.input_variables:
             sp = []
